@@ -418,6 +418,20 @@ UNITS['U28k'] = dict(
                  'R6: batch1.aggregations / batch1.order_by / batch1.projection (and batch2.*) lifted to parameters'],
     not_covered=['more than 4 group-by columns / 3 sort columns', 'key columns of different types on the two sides (casts; unify_types alone is covered for every pair)', 'the plain SELECT branch (append_all with the LIMIT window)', 'executor run and collect_aliased after the plan is built'])
 
+UNITS['U41k'] = dict(
+    kind='kani', crate='kani/U41', timeout_s=1500, mem_gb=24, jobs=4,
+    title='BOUNDED (4 rows of single-column keys in one batch and in two streamed batches; 3 rows of two-column byte-slice / mixed-value keys; every value symbolic): hashmap_grouping.rs, hashmap_grouping_byte_slices.rs, hashmap_grouping_val_rows.rs execute bodies (slices) - one group id per row, equal keys share an id, each distinct key kept once',
+    harnesses=[dict(name='proofs::%s' % h, bounded=b, unwind=8, clause='grouping[i] == grouping[j] <=> key[i] == key[j]; unique[grouping[i]] == key[i]; ids dense in first-appearance order; unique.len() == number of distinct keys == reported cardinality', fn=f)
+               for (h, b, f) in [('single_column_one_batch', '4 rows, any i64 keys, unwind 8', 'HashMapGrouping<T>::execute[slice]'),
+                                 ('single_column_two_batches', '2 + 2 rows streamed, any i64 keys, unwind 8', 'HashMapGrouping<T>::execute[slice]'),
+                                 ('byte_slice_rows', '3 rows of 2 cells, each cell one of three byte strings, unwind 8', 'HashMapGroupingByteSlices::execute[slice]'),
+                                 ('val_rows_two', '2 rows of 2 cells, each cell NULL / an integer / a float from a 256-value range, unwind 8', 'HashMapGroupingValRows::execute[slice]')]]
+    + [dict(name='proofs::val_rows_three', thorough_only=True, bounded='3 rows of 2 cells (thorough tier; about 10 min and 17 GB)', unwind=8, clause='same contract', fn='HashMapGroupingValRows::execute[slice]'),
+       dict(name='proofs::vx_canary', expect_fail=True)],
+    assumptions=['A-hashmap: fnv::FnvHashMap behaves as a map with a lawful Hash/Eq key - entry(k).or_insert_with(f) yields the value stored under a key equal to k and runs f (storing its result under k) only when there is none; association-list stand-in in kani/U41/src/lib.rs (hashbrown itself is beyond CBMC)',
+                 'R6: scratchpad bindings become parameters of the same guard / reference types; self.map in a one-field stand-in; trait Data reduced to len()'],
+    not_covered=['more than 4 rows', 'the hashing itself (Hash for Val / OrderedFloat vs Eq)', 'init / scratchpad wiring', 'group ids beyond u32'])
+
 UNITS['U30k'] = dict(
     kind='kani', crate='kani/U30', timeout_s=600, mem_gb=8,
     title='partition_segment.rs: the hand-written CodecOp <-> Cap\'n Proto union tables of PartitionSegment::serialize / deserialize (slices) and the EncodingType tables agree: every op reads back as written (complete: every variant, every field value)',
@@ -560,11 +574,11 @@ PROPS = {
                 level_note='per-partition planning, executor streaming, disk read scheduling and thread count are glue and not covered: the check catches a broken merge/combine primitive or a broken key-merge chain, not a broken executor',
                 technique='contract-based deductive verification (Verus + Kani complete harnesses) of extracted functions',
                 assumptions=[], not_covered=['executor stage partitioning / streaming', 'batch_merging::combine: plain SELECT branch, executor run and collect_aliased', 'disk read scheduler']),
-    'C04': dict(level='proof', units=['U09k', 'U09v', 'U09m', 'U10', 'U19', 'U20k', 'U01', 'U29', 'U31k', 'U32k', 'U33', 'U27k', 'U28k'],
+    'C04': dict(level='proof', units=['U09k', 'U09v', 'U09m', 'U10', 'U19', 'U20k', 'U01', 'U29', 'U31k', 'U32k', 'U33', 'U27k', 'U28k', 'U41k'],
                 level_text='complete Kani proofs of accumulate/combine kernels; Verus proofs of dedup-merge / merge_drop / merge_keep kernels and bitmap primitives',
-                level_note='grouping-key construction, hash-map grouping and the final pass are not covered',
+                level_note='hash-map grouping is covered by bounded Kani harnesses against an assumed map contract (A-hashmap), bit-packed key construction by an induction step (U32k) and width accounting (U31k); the final pass (collect_aliased, executor) is not covered',
                 technique='contract-based deductive verification (Verus + Kani complete harnesses) of extracted functions',
-                assumptions=[], not_covered=['hashmap_grouping*', 'try_bitpacking beyond the width accounting of U31k']),
+                assumptions=[], not_covered=['hashmap_grouping* beyond 4 rows and the hashing itself (A-hashmap)', 'try_bitpacking beyond the width accounting of U31k']),
     'C05': dict(level='proof', units=['U10', 'U11', 'U12k', 'U13k', 'U26', 'U29', 'U33', 'U35k', 'U27k', 'U36', 'U28k'],
                 level_text='Verus proof of merge (sorted, stable, limit) and of the sort kernels against assumed contracts of the std sorts (stable where stability is asked for, NULLs last / first when descending), complete Kani proofs of integer/float comparators and LIMIT/OFFSET window arithmetic; string comparators bounded',
                 level_note='the std sorts themselves are assumed (A-std-sort); the top-n driver is covered for seven fixed shapes only (bounded), the planner choice between sort and top-n and the plan that merges two sorted partial results by bounded Kani checks over recording planner stand-ins',
